@@ -249,6 +249,9 @@ class BracketError(ValueError):
     pass
 
 
+_ASCII_WS = ' \t\n\r\x0b\x0c'      # white space of the bracket formats
+
+
 def bracket_tokens(text):
     """-> list of ('(' | ')' | 'WS' | 'TOK', value)"""
     out = []
@@ -259,15 +262,15 @@ def bracket_tokens(text):
         if c in '()':
             out.append((c, c))
             i += 1
-        elif c.isspace():
+        elif c in _ASCII_WS:
             j = i
-            while j < n and text[j].isspace():
+            while j < n and text[j] in _ASCII_WS:
                 j += 1
             out.append(('WS', text[i:j]))
             i = j
         else:
             j = i
-            while j < n and not text[j].isspace() and text[j] not in '()':
+            while j < n and not text[j] in _ASCII_WS and text[j] not in '()':
                 j += 1
             out.append(('TOK', text[i:j]))
             i = j
